@@ -27,24 +27,6 @@ theorem alookup_mem {K V : Type} [DecidableEq K] (l : List (K × V)) (k : K) (v 
     · simp [alookup, hk] at h; subst h; subst hk; simp
     · simp [alookup, hk] at h; exact List.mem_cons_of_mem _ (ih h)
 
-theorem storClean_slot (st : Store) (a : Addr) (h : st.storClean a = true) (k : Key) : st.slot a k = 0 := by
-  unfold Store.slot
-  cases hl : alookup (a, k) st.stor with
-  | none => rfl
-  | some v =>
-    have hm := alookup_mem _ _ _ hl
-    simp only [Store.storClean, List.all_eq_true] at h
-    have := h _ hm
-    simp at this
-    simpa using this
-
-theorem viewObj_fresh_clean (st : Store) (a : Addr) (b : Nat) (hz : ∀ k, st.slot a k = 0) :
-    viewObj st (Obj.fresh a b) = viewR (RAcct.fresh b) := by
-  simp only [viewObj, viewR, Obj.fresh, RAcct.fresh, Obj.getCode, AView.mk.injEq]
-  refine ⟨trivial, trivial, trivial, by simp, ?_, ?_, trivial⟩
-  · funext k; simp [Obj.slotView, RAcct.slot, hz]
-  · funext k; simp [RAcct.cslot, hz]
-
 theorem upsert_upsert {K V : Type} [DecidableEq K] (l : List (K × V)) (k : K) (v v' : V) :
     upsert (upsert l k v) k v' = upsert l k v' := by
   induction l with
@@ -58,14 +40,7 @@ theorem jappend_some (s s1 : Impl) (e : Entry) (h : s.jappend e = some s1) :
   simp only [Impl.jappend, Option.some.injEq] at h
   exact h.symm
 
-theorem liveAt_view (s : Impl) (a : Addr) : s.liveAt a = (s.view a).isSome := by
-  unfold Impl.liveAt Impl.view
-  cases hl : alookup a s.objs with
-  | some o => by_cases hd : o.deleted <;> simp [hd]
-  | none => simp [Store.view]
-
 theorem sim_createAccount {s s' : Impl} {r : Ref} (c : Cfg) (h : Sim s r) (a : Addr)
-    (hgd : s.liveAt a = false ∨ s.store.storClean a = true)
     (hs : s.createAccount a = some s') : Sim s' (r.step c (.createAccount a)).1 := by
   cases hgo : s.getObj a with
   | mk sa prev =>
@@ -107,12 +82,6 @@ theorem sim_createAccount {s s' : Impl} {r : Ref} (c : Cfg) (h : Sim s r) (a : A
     | some p =>
       have hs0 := getObj_spec s h.cinv a sa (some p) hgo
       obtain ⟨hobj, haddr, hok, hvw⟩ := hs0.2.2.2.2 p rfl
-      have hlive : s.liveAt a = true := by rw [liveAt_view, hvw]; rfl
-      have hclean : s.store.storClean a = true := by
-        cases hgd with
-        | inl h0 => rw [hlive] at h0; cases h0
-        | inr h1 => exact h1
-      have hz := storClean_slot s.store a hclean
       cases hw : r.cur.get a with
       | none =>
         have hv : s.view a = (r.cur.get a).map viewR := view_eq_get h.abs a
@@ -126,7 +95,7 @@ theorem sim_createAccount {s s' : Impl} {r : Ref} (c : Cfg) (h : Sim s r) (a : A
         | none => simp [hj1] at hs
         | some s2 =>
           simp only [hj1, Option.map_some, Impl.objSetBalance] at hs
-          cases hj2 : (s2.setObj (Obj.fresh a (sa.store.balOf a))).jappend (Entry.balance (Obj.fresh a (sa.store.balOf a)).addr (Obj.fresh a (sa.store.balOf a)).bal) with
+          cases hj2 : (s2.setObj (Obj.make a (sa.store.balOf a))).jappend (Entry.balance (Obj.make a (sa.store.balOf a)).addr (Obj.make a (sa.store.balOf a)).bal) with
           | none => simp [hj2] at hs
           | some s3 =>
             simp only [hj2, Option.map_some, Option.some.injEq] at hs
@@ -135,10 +104,10 @@ theorem sim_createAccount {s s' : Impl} {r : Ref} (c : Cfg) (h : Sim s r) (a : A
             have he2 := jappend_some _ s3 _ hj2
             subst he1
             -- the same final state without the intermediate cache write
-            have hfinal : s3.setObj { Obj.fresh a (sa.store.balOf a) with bal := p.bal } =
-                ({ sa with journal := (sa.journal.append (Entry.resetObject p)).append (Entry.balance a (sa.store.balOf a)) } : Impl).setObj (Obj.fresh a p.bal) := by
+            have hfinal : s3.setObj { Obj.make a (sa.store.balOf a) with bal := p.bal } =
+                ({ sa with journal := (sa.journal.append (Entry.resetObject p)).append (Entry.balance a (sa.store.balOf a)) } : Impl).setObj (Obj.make a p.bal) := by
               subst he2
-              simp only [Impl.setObj, Obj.fresh, upsert_upsert]
+              simp only [Impl.setObj, Obj.make, Obj.fresh, upsert_upsert]
             rw [hfinal]
             have hst : Step s sa r r.cur [] := (Step.refl h).sameAbs hs0.1 hs0.2.1 hs0.2.2.1 (getObj_okOf s sa h.cinv a _ hgo)
             have hch : sa.jappends [Entry.resetObject p, Entry.balance a (sa.store.balOf a)] =
@@ -148,8 +117,8 @@ theorem sim_createAccount {s s' : Impl} {r : Ref} (c : Cfg) (h : Sim s r) (a : A
               [Entry.resetObject p, Entry.balance a (sa.store.balOf a)] hch
               (by intro b; simp [Entry.dirtied]; exact eq_comm)
               (by intro e he; simp at he; rcases he with he | he <;> subst he; exact hok; trivial)
-              (Obj.fresh a p.bal) (RAcct.fresh x.bal) rfl (objOK_fresh _ _ _)
-              (by rw [(view_fields hview).2.1]; exact viewObj_fresh_clean s.store a x.bal hz)
+              (Obj.make a p.bal) (RAcct.fresh x.bal) rfl (objOK_make _ _ _)
+              (by rw [(view_fields hview).2.1]; exact viewObj_make s.store a x.bal)
               (by
                 intro W
                 simp only [List.reverse_cons, List.reverse_nil, List.nil_append, List.singleton_append, undoAbs, Entry.undo,
@@ -465,7 +434,7 @@ theorem sim_snapshot {s : Impl} {r : Ref} (c : Cfg) (h : Sim s r) :
     intro x hx
     obtain ⟨y, hy⟩ := All2.forall_left h.revs x hx
     exact hy.le
-  refine ⟨⟨h.cinv.objs, h.cinv.nodup, h.cinv.store⟩, h.entries, ?_, h.thash, ?_, h.touched, h.tc, h.nodup, ?_, ?_, ?_, ?_, h.sticky, h.jok, h.cnt, h.ook⟩
+  refine ⟨⟨h.cinv.objs, h.cinv.nodup, h.cinv.store⟩, h.entries, ?_, h.thash, ?_, h.touched, h.tc, h.nodup, ?_, ?_, ?_, ?_, h.jok, h.cnt, h.ook⟩
   · have : absI ({ s with revisions := s.revisions ++ [(s.nextRev, s.journal.entries.length)], nextRev := s.nextRev + 1 } : Impl) = absI s := rfl
     rw [this]; exact h.abs
   · show s.nextRev + 1 = r.nextRev + 1; rw [h.nextRev]
@@ -552,7 +521,7 @@ theorem sim_revert {s s' : Impl} {r : Ref} (c : Cfg) (h : Sim s r) (id : Nat)
           intro x hx'
           have hp := pairwise_take_get (s.revisions.map (·.2)) (findRev s.revisions rid) jidx h.jSorted (by simp [hx])
           exact hp x.2 (by rw [← List.map_take]; exact List.mem_map_of_mem hx')
-        refine ⟨⟨hra.1.objs, hra.1.nodup, hra.1.store⟩, ?_, ?_, ?_, ?_, ?_, ?_, hxy.nodup, ?_, ?_, ?_, ?_, h.sticky, ?_, hcnt', ?_⟩
+        refine ⟨⟨hra.1.objs, hra.1.nodup, hra.1.store⟩, ?_, ?_, ?_, ?_, ?_, ?_, hxy.nodup, ?_, ?_, ?_, ?_, ?_, hcnt', ?_⟩
         · show EntriesOK s1.store s1.journal.entries
           rw [hra.2.1, hra.2.2.1]
           intro e he; exact h.entries e (List.mem_of_mem_take he)
